@@ -66,6 +66,9 @@ func c11Programs(thorough bool) []c11Program {
 		{Name: "source", Files: map[string]string{"t.csv": t, "u.csv": u, "prog.sql": src}, Args: []string{"-s", "prog.sql"}},
 		{Name: "update-then-error", Files: tu, Args: []string{"UPDATE t SET b = 'z'; SELECT nosuch FROM u;"}, WantFail: true},
 		{Name: "create-then-error", Files: tu, Args: []string{"CREATE TABLE `n.csv` (c1); INSERT INTO n VALUES (1); UPDATE u SET c = 1/0;"}, WantFail: true},
+		// a second table whose path differs from a held one only in letter case: csvq keys its handlers without regard to case and refuses
+		{Name: "update-then-create-other-case", Files: tu, Args: []string{"UPDATE t SET b = 'z'; CREATE TABLE `T.CSV` (c1);"}, WantFail: true},
+		{Name: "create-then-create-other-case", Files: tu, Args: []string{"CREATE TABLE `n.csv` (c1); CREATE TABLE `N.CSV` (c1);"}, WantFail: true},
 		{Name: "update-then-exit", Files: tu, Args: []string{"UPDATE t SET b = 'z'; EXIT;"}},
 		{Name: "update-rollback-update", Files: tu, Args: []string{"UPDATE t SET b = 'z'; ROLLBACK; UPDATE u SET c = 'r';"}},
 		{Name: "select-for-update", Files: tu, Args: []string{"SELECT * FROM t FOR UPDATE"}, ReadOnly: true},
